@@ -9,6 +9,8 @@ _ARGS = [
     ["/d"], ["/d/s"], ["/d", "/d/s"], ["/d/a.m" + H], ["/d/a.m" + H, "/d"], ["/d/" + H + ".md"], ["/d/*.m" + H, "/d/s"],
     ["/d/" + H, "/x"], ["/d/s/" + H + ".md", "/d/s/t"], ["/d/a.md", "/d/a.md", "/d"], ["/" + H], ["/d/s/e.txt"], ["/d/" + H + "*"],
     ["/d/s/" + H, "/d/a.md"], ["/d/" + H + H], ["/d/a[" + H + "].md"], ["/d/a" + H + "1].md", "/d/s"],
+    # an argument that may fail *between* two that succeed (the error must not be forgotten, nothing may be scanned)
+    ["/d/s/c.md", "/d/" + H, "/d/s"], ["/d/s", "/x", "/d/s/t/g.md"],
 ]
 
 
@@ -30,7 +32,7 @@ class C19(Spec):
         names_sets = [_NAMES[0], _NAMES[1], _NAMES[4]] if tier == "quick" else _NAMES
         for ni, names in enumerate(names_sets):
             for ai, args in enumerate(_ARGS):
-                if tier == "quick" and ((ni == 1 and ai % 2) or (ni == 2 and ai < len(_ARGS) - 4)):
+                if tier == "quick" and ((ni == 1 and ai % 2) or (ni == 2 and ai < len(_ARGS) - 6)):
                     continue
                 for exts in ((".md",) if tier == "quick" and ai % 3 else (".md", ".md,.txt")):
                     out.append({"harness": "fs", "params": {"prop": "C19", "names": names, "args": args, "exts": exts}, "per_path_timeout": 30.0, "budget_s": 300.0 if tier == "quick" else 900.0})
